@@ -1391,6 +1391,10 @@ func (p *Parser) parseFormatStringOperator() (token.Token, string, string, error
 
 	formatted, err := p.fonts.FormatText(textToken.Literal, maxLineLength, cursorOverlapWidth, fontID, numLines)
 	if err != nil && p.enableEnvironmentErrors {
+		if fontIdToken.Type != token.STRING {
+			// The font id came from the -f option or the font config, not from the source.
+			fontIdToken = textToken
+		}
 		return token.Token{}, "", "", NewParseError(fontIdToken, err.Error())
 	}
 	return textToken, formatted, stringType, nil
